@@ -421,6 +421,12 @@ def oracle_fails(pid, op, orc, op_core=None):
         v = bad("rb")
         if v and "traversal" in v:
             out.append("rb=" + v)
+        # a valid input (the reference decoder accepts it) that is rejected, or on which the visit panics, does not get
+        # the traversal of its structure: the callbacks stop short
+        if v and "rust-bitcoin-accepts" in v:
+            out.append("rb=" + v + " (valid input: its traversal is not delivered)")
+        if op_core is not None and op_core.startswith("visit r=panic"):
+            out.append("the-visit-panics-instead-of-delivering-the-traversal")
         v = bad("pfx")
         if v and "callbacks" in v:
             out.append("pfx=" + v)
